@@ -96,7 +96,8 @@ def cases_from_graph(g, prefix=""):
         f = st["fault"]
         fmt = st["fmt"]
         cid = "%s%s.%s.%d" % (prefix, fmt, f["kind"], f["pos"])
-        c = Case(cid, fmt, f["kind"], f["pos"], f["role"], bool(f["crlf"]), st["doc"], bound=st["verdict"]["bound"]["values"])
+        b = st["verdict"]["bound"]
+        c = Case(cid, fmt, f["kind"], f["pos"], f["role"], bool(f["crlf"]), st["doc"], bound=(b["values"], b["entries"]))
         if hfmt(fmt) != "argv":
             c.data = render_text(st["doc"], c.crlf)
         out.append(c)
@@ -196,7 +197,7 @@ class Runner:
             return p
         raise vlib.InfraError("unknown format %s" % c.fmt)
 
-    def run_harness(self, cases, budget):
+    def run_harness(self, cases, budget, _retry=False):
         """all cases through loader_fuzz (PAR shards); returns {id: record}"""
         shards = [[] for _ in range(PAR)]
         for i, c in enumerate(cases):
@@ -228,6 +229,22 @@ class Runner:
         with cf.ThreadPoolExecutor(max_workers=PAR) as ex:
             for r in ex.map(one, range(PAR)):
                 res.update(r)
+        # a wall-clock verdict is only kept if it repeats in isolation with three times the limit (shared machine)
+        slow = [t for sh in shards for t in sh if res.get(t[0], {}).get("how") == "timeout"][:12]
+        if slow and not _retry:
+            lst = os.path.join(self.work, "cases.retry.%d.tsv" % len(os.listdir(self.work)))
+            with open(lst, "w") as f:
+                for t in slow:
+                    f.write("\t".join(t) + "\n")
+            vlib.sh([self.exe, "--cases", lst, "--out", lst + ".out", "--timeout", str(3 * CASE_TIMEOUT),
+                     "--seed", str(self.ck.seed)], timeout=len(slow) * (3 * CASE_TIMEOUT + 5) + 30, env=self.env)
+            if os.path.exists(lst + ".out"):
+                with open(lst + ".out", encoding="latin-1") as f:
+                    for line in f:
+                        r = json.loads(line)
+                        r["retried"] = True
+                        res[r["id"]] = r
+            self.ck.add("timeouts_retried", len(slow))
         return res
 
     def run_binary(self, cases):
@@ -287,33 +304,39 @@ def symptom(rec):
 
 
 def observation(c, rec):
-    """(sym, values, invalid, alien) as integers / strings for Loader!Accept"""
+    """(sym, values, entries, invalid, alien) as integers / strings for Loader!Accept"""
     sym = symptom(rec)
     res = (rec or {}).get("res") or {}
     h = hfmt(c.fmt)
     g = lambda k: int(res.get(k, 0) or 0)
     if h == "event":
-        return sym, 4 * g("nev") + 5 * g("npart"), g("invalid"), 0
+        return sym, 4 * g("nev") + 5 * g("npart"), 0, g("invalid"), 0
     # Only the loaders' OWN validity predicates count as "invalid": event::is_valid for a delivered event, "p.d.f. value
     # >= 0" for the loaded table (seen through plot_interpolated_pdf), the catalogue loaders' acceptance test.  What a later
     # shoot makes of a table that passes them (e.g. NaN momenta from an absurd but accepted energy range) is not the
     # loader's business: those counters (shots_invalid, e_bad, use_invalid) are informative only.
     if h in GA_FILE:
-        return sym, 0, g("plot_neg"), g("plot_over")
+        return sym, 0, 0, g("plot_neg"), g("plot_over")
     if h in LIS_FILE:
-        return sym, g("n"), g("implausible"), g("alien")
-    return sym, 0, 0, 0
+        return sym, 0, g("n"), g("implausible"), g("alien")
+    return sym, 0, 0, 0, 0
 
 
-def why_py(sym, values, invalid, alien, bound):
-    """Python mirror of Loader!Why, used only for the byte-level pass (outside the specification)"""
+def why_py(sym, values, entries, invalid, alien, bound):
+    """Python mirror of Loader!Why: decides the byte-level pass (outside the specification) and cross-checks TLC"""
     if sym not in ALLOWED:
         return sym
     if invalid or alien:
         return "garbage"
-    if values > bound:
+    if values > bound[0] or entries > bound[1]:
         return "invented"
     return "ok"
+
+
+def byte_bound(data):
+    """'no invention' for arbitrary bytes: a value consumes at least one non-blank byte, an entry one non-blank line"""
+    return (len(data) - sum(data.count(w) for w in (b" ", b"\t", b"\n", b"\r", b"\v", b"\f")),
+            sum(1 for ln in data.split(b"\n") if ln.strip()))
 
 
 def control_ok(c, rec):
@@ -355,14 +378,14 @@ def validate_trace(ck, run, cases, recs, bins, module="TraceLoader", cfg="TraceL
             f.write(json.dumps({"e": "Gen", "f": c.fmt}) + "\n")
             if c.kind != "none":
                 f.write(json.dumps({"e": "Inject", "k": c.kind, "p": c.pos}) + "\n")
-            sym, values, invalid, alien = observation(c, recs.get(c.id))
-            f.write(json.dumps({"e": "Observe", "id": c.id, "sym": sym, "values": values, "invalid": invalid,
-                                "alien": alien}) + "\n")
+            sym, values, entries, invalid, alien = observation(c, recs.get(c.id))
+            f.write(json.dumps({"e": "Observe", "id": c.id, "sym": sym, "values": values, "entries": entries,
+                                "invalid": invalid, "alien": alien}) + "\n")
             nobs += 1
             b = bins.get(c.id)
             if b and "sym" in b:
-                f.write(json.dumps({"e": "Observe", "id": c.id + "/bin", "sym": b["sym"], "values": 0, "invalid": 0,
-                                    "alien": 0}) + "\n")
+                f.write(json.dumps({"e": "Observe", "id": c.id + "/bin", "sym": b["sym"], "values": 0, "entries": 0,
+                                    "invalid": 0, "alien": 0}) + "\n")
                 nobs += 1
             f.write(json.dumps({"e": "Reset"}) + "\n")
     r = vlib.tlc(module, cfg, workers=1, env={"TRACE": path}, spec_dir=spec_dir, timeout=900)
@@ -380,8 +403,7 @@ def validate_trace(ck, run, cases, recs, bins, module="TraceLoader", cfg="TraceL
         raise vlib.InfraError("could not parse every REJECT line of TraceLoader's output")
     # cross-check with the Python mirror of Loader!Why (used for the byte-level pass): the two must agree
     for c in cases:
-        sym, values, invalid, alien = observation(c, recs.get(c.id))
-        w = why_py(sym, values, invalid, alien, c.bound)
+        w = why_py(*observation(c, recs.get(c.id)), c.bound)
         if (w != "ok") != (c.id in rej) or (w != "ok" and rej[c.id] != w):
             raise vlib.InfraError("TraceLoader and its Python mirror disagree on %s: %s vs %s" % (c.id, rej.get(c.id, "ok"), w))
     return rej, nobs
@@ -554,9 +576,9 @@ def _replay(ck, run_, path):
         raise vlib.InfraError("replay file carries neither bytes nor document")
     recs = run_.run_harness([c], 120)
     rec = recs.get(c.id)
-    sym, values, invalid, alien = observation(c, rec)
-    bound = 2 * len(c.data.split()) if c.data is not None else 10 ** 9
-    why = why_py(sym, values, invalid, alien, bound)
+    obs = observation(c, rec)
+    sym = obs[0]
+    why = why_py(*obs, byte_bound(c.data) if c.data is not None else (10 ** 9, 10 ** 9))
     bins = run_.run_binary([c]) if hfmt(c.fmt) == "argv" else {}
     ck.add("evaluations", 1 + len(bins))
     ck.set("distinct_nontrivial", 2)
@@ -618,7 +640,7 @@ def _run(ck, run_, thorough, replay):
                 continue
             seen.add(hsh)
             bcases.append(Case("b.%s.%d" % (b.fmt, i), b.fmt, "bytemut", 0, "bytes", False, None, data=data, outside=True,
-                               bound=2 * len(data.split())))
+                               bound=byte_bound(data)))
     brecs = run_.run_harness(bcases, 1500 if thorough else 400)
     bmissing = [c.id for c in bcases if c.id not in brecs]
     if bmissing:
@@ -628,8 +650,9 @@ def _run(ck, run_, thorough, replay):
     for c in bcases:
         if c.id not in brecs:
             continue
-        sym, values, invalid, alien = observation(c, brecs[c.id])
-        why = why_py(sym, values, invalid, alien, c.bound)
+        obs = observation(c, brecs[c.id])
+        sym = obs[0]
+        why = why_py(*obs, c.bound)
         outside["cases"] += 1
         if why == "ok":
             outside[sym] += 1
